@@ -261,6 +261,61 @@ func init() {
 		return []Term{ite(okc, val, "0"), ite(okc, "nil_iface", errc)}
 	}
 	stubs["github.com/samber/lo.Must"] = func(cx *callCtx) []Term { return []Term{cx.args[0]} }
+	stubs["time.(Duration).Seconds"] = func(cx *callCtx) []Term {
+		return []Term{fmt.Sprintf("(/ (to_real %s) 1000000000.0)", cx.args[0])}
+	}
+	stubs["time.(Duration).Minutes"] = func(cx *callCtx) []Term {
+		return []Term{fmt.Sprintf("(/ (to_real %s) 60000000000.0)", cx.args[0])}
+	}
+	stubs["sigs.k8s.io/controller-runtime/pkg/client.ObjectKeyFromObject"] = func(cx *callCtx) []Term {
+		// NamespacedName{Namespace: obj.GetNamespace(), Name: obj.GetName()} for a concrete API object
+		e := cx.fr.eng
+		vc := e.vc
+		rt := cx.sig.Results().At(0).Type()
+		vc.sortOf(rt)
+		var objT types.Type
+		obj := ""
+		if len(cx.argVs) > 0 {
+			if mi, ok := cx.argVs[0].(*ssa.MakeInterface); ok {
+				objT, obj = mi.X.Type(), cx.fr.val(mi.X)
+			}
+		}
+		if objT != nil {
+			if pt, ok := objT.Underlying().(*types.Pointer); ok {
+				if o, path := lookupFieldAnyPkg(pt.Elem(), "Namespace"); o != nil && len(path) == 2 {
+					if o2, path2 := lookupFieldAnyPkg(pt.Elem(), "Name"); o2 != nil && len(path2) == 2 {
+						mt := pt.Elem().Underlying().(*types.Struct).Field(path[0]).Type()
+						base := fmt.Sprintf("(fld %s %d)", obj, path[0])
+						ns := e.loadField(cx.st, base, mt, path[1])
+						nm := e.loadField(cx.st, base, mt, path2[1])
+						return []Term{fmt.Sprintf("(%s %s %s)", vc.structCtor(rt), ns, nm)}
+					}
+				}
+			}
+		}
+		vc.decl("fn:objkey", fmt.Sprintf("(declare-fun objkey (Iface) %s)", vc.sortOf(rt)))
+		return []Term{fmt.Sprintf("(objkey %s)", cx.args[0])}
+	}
+	stubs["time.ParseDuration"] = func(cx *callCtx) []Term {
+		vc := cx.fr.eng.vc
+		declPdur(vc)
+		s := cx.args[0]
+		return []Term{fmt.Sprintf("(ite (pdur_ok %s) (pdur_val %s) 0)", s, s), fmt.Sprintf("(ite (pdur_ok %s) nil_iface pdur_err)", s)}
+	}
+	stubs["k8s.io/apimachinery/pkg/runtime/schema.(GroupVersionKind).GroupVersion"] = func(cx *callCtx) []Term {
+		vc := cx.fr.eng.vc
+		gvk, gv := cx.argTs[0], cx.sig.Results().At(0).Type()
+		vc.sortOf(gvk)
+		vc.sortOf(gv)
+		return []Term{fmt.Sprintf("(%s (%s %s) (%s %s))", vc.structCtor(gv), vc.structSel(gvk, 0), cx.args[0], vc.structSel(gvk, 1), cx.args[0])}
+	}
+	stubs["k8s.io/apimachinery/pkg/runtime/schema.(GroupVersion).String"] = func(cx *callCtx) []Term {
+		vc := cx.fr.eng.vc
+		declGvstr(vc)
+		gv := cx.argTs[0]
+		vc.sortOf(gv)
+		return []Term{fmt.Sprintf("(gvstr (%s %s) (%s %s))", vc.structSel(gv, 0), cx.args[0], vc.structSel(gv, 1), cx.args[0])}
+	}
 	stubs["math/rand.Intn"] = func(cx *callCtx) []Term {
 		vc := cx.fr.eng.vc
 		cx.fr.safety(cx.st, "call.rand.Intn", fmt.Sprintf("(> %s 0)", cx.args[0]), cx.instr, "rand.Intn argument must be positive")
@@ -268,6 +323,18 @@ func init() {
 		vc.assumeIf(cx.st.pc, fmt.Sprintf("(and (<= 0 %s) (< %s %s))", r, r, cx.args[0]))
 		return []Term{r}
 	}
+}
+
+func declPdur(vc *VC) {
+	vc.decl("fn:pdur_ok", "(declare-fun pdur_ok (Str) Bool)")
+	vc.decl("fn:pdur_val", "(declare-fun pdur_val (Str) Int)")
+	vc.decl("c:pdur_err", "(declare-const pdur_err Iface)")
+	vc.decl("ax:pdur_err", "(assert (not (= pdur_err nil_iface)))")
+}
+
+func declGvstr(vc *VC) {
+	vc.decl("fn:gvstr", "(declare-fun gvstr (Str Str) Str)")
+	vc.decl("ax:gvstr", fmt.Sprintf("(assert (forall ((v Str)) (! (= (gvstr %s v) v) :pattern ((gvstr %s v)))))", vc.strLit(""), vc.strLit("")))
 }
 
 func declAtoi(vc *VC) {
@@ -316,6 +383,7 @@ var purePrefixes = []string{
 	"k8s.io/apimachinery/pkg/types.NamespacedName", "(k8s.io/apimachinery/pkg/types.NamespacedName)",
 	"sigs.k8s.io/controller-runtime/pkg/client.ObjectKeyFromObject", "k8s.io/klog/v2.KObj", "k8s.io/klog/v2.KRef",
 	"(error).Error", "github.com/samber/lo.",
+	"(sigs.k8s.io/controller-runtime/pkg/client.Client).SubResource", "(sigs.k8s.io/controller-runtime/pkg/client.Client).Status", "(sigs.k8s.io/controller-runtime/pkg/client.Client).Scheme",
 	"(sigs.k8s.io/karpenter/pkg/cloudprovider.CloudProvider).RepairPolicies", "(sigs.k8s.io/karpenter/pkg/cloudprovider.CloudProvider).GetSupportedNodeClasses", "(sigs.k8s.io/karpenter/pkg/cloudprovider.CloudProvider).Name", "(*sigs.k8s.io/karpenter/pkg/events.", "(sigs.k8s.io/karpenter/pkg/events.Recorder)", "sigs.k8s.io/karpenter/pkg/events.",
 }
 
